@@ -119,6 +119,11 @@ def is_inner_vm(recv):
     t = recv
     if isinstance(t, tuple) and t and t[0] == "ref":
         t = t[1]
-    return (isinstance(t, tuple) and len(t) == 4 and t[0] == "pf" and isinstance(t[1], tuple) and t[1][:1] == ("pv",)
-            and isinstance(t[1][1], tuple) and t[1][1][:1] == ("self",) and bool(re.match(r"^EbpfVm\w+(<.*>)?$", str(t[3]))))
+    if not (isinstance(t, tuple) and len(t) == 4 and t[0] == "pf" and bool(re.match(r"^EbpfVm\w+(<.*>)?$", str(t[3])))):
+        return False
+    # ... possibly the VM wrapped by the VM it wraps (`self.parent.parent`)
+    b = t[1]
+    while isinstance(b, tuple) and len(b) == 4 and b[0] == "pf" and re.match(r"^EbpfVm\w+(<.*>)?$", str(b[3])):
+        b = b[1]
+    return isinstance(b, tuple) and b[:1] == ("pv",) and isinstance(b[1], tuple) and b[1][:1] == ("self",)
 
